@@ -56,6 +56,12 @@ pub struct AFootprint {
     pub b_in: BTreeSet<u64>,
     pub b_out: BTreeSet<u64>,
     pub factor_mask: u64,
+    /// read claims that name ANOTHER instance: (warp, node) / (warp, edge). Honest programs
+    /// never have any; C14 uses them for misdirected declarations.
+    #[serde(default)]
+    pub foreign_n_read: BTreeSet<(u8, u8)>,
+    #[serde(default)]
+    pub foreign_e_read: BTreeSet<(u8, u8)>,
 }
 
 impl AFootprint {
@@ -85,6 +91,12 @@ impl AFootprint {
         for p in &self.b_out {
             fp.b_out.insert(warp_id(w), *p);
         }
+        for (fw, n) in &self.foreign_n_read {
+            fp.n_read.insert(node_key(*fw, *n));
+        }
+        for (fw, e) in &self.foreign_e_read {
+            fp.e_read.insert(edge_key(*fw, *e));
+        }
         fp.factor_mask = self.factor_mask;
         fp
     }
@@ -98,6 +110,14 @@ impl AFootprint {
         }
         // attachment slots carry their own warp
         if meet(&self.a_write, &other.a_write) || meet(&self.a_write, &other.a_read) || meet(&other.a_write, &self.a_read) {
+            return true;
+        }
+        // read claims on another instance meet that instance's writes
+        if self.foreign_n_read.iter().any(|(fw, n)| *fw == wb && other.n_write.contains(n))
+            || other.foreign_n_read.iter().any(|(fw, n)| *fw == wa && self.n_write.contains(n))
+            || self.foreign_e_read.iter().any(|(fw, e)| *fw == wb && other.e_write.contains(e))
+            || other.foreign_e_read.iter().any(|(fw, e)| *fw == wa && self.e_write.contains(e))
+        {
             return true;
         }
         if wa != wb {
